@@ -1307,6 +1307,7 @@ def _make_replicas(program, trace):
                                       "reuse_internal_data": True})):
         s = _Session(program, ov)
         s.name = name
+        s.exact_flows = bool(trace["meta"].get("radial"))
         s.topology_dirty = False
         reps.append(s)
     return reps
@@ -1365,8 +1366,14 @@ def _run_replicas(res, replicas, op, live, outcome, mode, solver, oi):
             res.count("probe:ill-posed-flowless-pump")
             continue
         # temperatures of junctions inside a flowless loop are decided by the sign of a round-off flow
-        fl = netmodel.flowless_junctions(ref.net) | netmodel.flowless_junctions(s.net)
-        d = netmodel.results_close(ref.net, s.net, rtol=1e-5, atol=1e-8, mask_zero_flow=True, skip_junction_t=fl)
+        ex = getattr(s, "exact_flows", False)
+        if ex:
+            fl = netmodel.flowless_junctions(ref.net, thr_rel=0.0, thr_abs=netmodel.EXACT_ZERO_FLOW_ABS) | \
+                netmodel.flowless_junctions(s.net, thr_rel=0.0, thr_abs=netmodel.EXACT_ZERO_FLOW_ABS)
+            res.count("probe:replica-compare-exact-flows")
+        else:
+            fl = netmodel.flowless_junctions(ref.net) | netmodel.flowless_junctions(s.net)
+        d = netmodel.results_close(ref.net, s.net, rtol=1e-5, atol=1e-8, mask_zero_flow=True, skip_junction_t=fl, exact_flows=ex)
         if d:
             res.violate("C07", "C07/results-differ:%s-vs-%s@%s" % (ref.name, s.name, mode), ",".join(d)[:400], oi)
         res.oracle_checks += 1
